@@ -158,6 +158,7 @@ type Scenario struct {
 	Clients       []ClientCfg
 	Calls         []*CallPlan
 	PoolFIFO      bool
+	PoolDrop      uint32         // non-zero: pooled objects vanish now and then, as at a GC (seed)
 	AlgoYield     bool           // custom (de)compressors park at a scheduler gate in their first Read
 	CompFault     *compFault     // C08: one custom (de)compressor operation fails
 	CompFaultSide int            // 0 handler-side instances, 1 client-side instances
